@@ -254,10 +254,12 @@ def make_args(case):
         include_cardinality_in_feature_names="True",
         output_folder=OUT,
         # only read by compute_batch_ranking / mixed_rank_graph (family "batch")
-        task="identify_rare_values", heuristic="Constant", feature_set_focus=None, transformers="none",
-        explode_multivalue_features="False", subfeature_mapping="False", interaction_order=1,
+        task="identify_rare_values", heuristic="Constant", feature_set_focus=None,
+        transformers=case.get("transformers") or "none",
+        explode_multivalue_features="False", subfeature_mapping="False", interaction_order=int(case.get("interaction_order") or 1),
         reference_model_JSON="", include_noise_baseline_features="False", target_ranking_only="True",
-        label_column=case["cols"][-1], combination_number_upper_bound=8, disable_tqdm="True",
+        label_column=case["cols"][-1],
+        combination_number_upper_bound=(10 ** 4 if int(case.get("interaction_order") or 1) > 1 else 8), disable_tqdm="True",
     )
 
 
@@ -287,7 +289,9 @@ SMALL_SKETCH_ERROR = small_sketch_probe()
 
 
 def run_history(case, sizes):
-    cols = case["cols"]
+    fcols = case["cols"]                                   # the columns of the parsed rows
+    cols = list(fcols) + list(case.get("icols") or [])     # + the constructed interaction columns that are judged as well
+    numeric = set(case.get("numeric") or [])               # numeric_column_types of the data source
     rows = case["rows"]
     args = make_args(case)
     reset_globals()
@@ -313,7 +317,7 @@ def run_history(case, sizes):
         path = os.path.join(OUT, "data.csv")
         if case.get("source") != "ob-vw":
             with open(path, "w", encoding="utf8", newline="") as f:
-                f.write(",".join(cols) + "\n")
+                f.write(",".join(fcols) + "\n")
                 for r in rows:
                     f.write(",".join(r) + "\n")
         args.minibatch_size = sizes[0]
@@ -324,16 +328,16 @@ def run_history(case, sizes):
             # vw lines: label first, a namespace token "|n<j> xx<value>" per present cell (the parser drops the first two
             # characters of the value part); an absent namespace is parsed as None
             args.data_source = "ob-vw"
-            fw = {"n%d" % j: cols[j] for j in range(1, len(cols))}
+            fw = {"n%d" % j: fcols[j] for j in range(1, len(fcols))}
             delim = "\t"
             with open(path, "w", encoding="utf8", newline="") as f:
                 f.write("header\n")
                 for r in rows:
-                    f.write(r[0] + " " + " ".join("|n%d xx%s" % (j, r[j]) for j in range(1, len(cols)) if r[j] is not None) + "\n")
+                    f.write(r[0] + " " + " ".join("|n%d xx%s" % (j, r[j]) for j in range(1, len(fcols)) if r[j] is not None) + "\n")
         else:
             args.data_source = "csv-raw"
         ret = cr.estimate_importances_minibatches(
-            input_file=path, column_descriptions=list(cols), fw_col_mapping=fw, numeric_column_types=set(),
+            input_file=path, column_descriptions=list(fcols), fw_col_mapping=fw, numeric_column_types=set(numeric),
             batch_size=sizes[0], args=args, data_encoding="utf-8", cpu_pool=FakePool(), delimiter=delim, logger=Log())
         pipeline_objs = (ret[2], ret[5], ret[6], ret[8])
         sizes = []
@@ -341,9 +345,9 @@ def run_history(case, sizes):
         chunk = [list(r) for r in rows[pos:pos + n]]
         pos += n
         if case.get("via") == "batch":
-            _, _, coverage_storage, _ = cr.compute_batch_ranking(chunk, set(), args, FakePool(), cols, Log(), pbar)
+            _, _, coverage_storage, _ = cr.compute_batch_ranking(chunk, set(numeric), args, FakePool(), list(fcols), Log(), pbar)
         else:
-            df = pd.DataFrame(chunk, columns=cols)
+            df = pd.DataFrame(chunk, columns=fcols)
             coverage_storage = cr.compute_coverage(df, args)
             cr.compute_cardinalities(df, pbar, args.max_unique_hist_constraint)
             cr.compute_value_counts(df, args)
@@ -399,7 +403,9 @@ def run_history(case, sizes):
             ary = np.array(list(v.default_counter.values()))
             out["hist"][k] = {str(x): int(len(np.where(ary > x)[0])) for x in [0] + [10 ** i for i in range(6)]}
     # --- rare values: storage and the real writer
-    out["rare"] = [[k[0], enc(k[1]), int(v)] for k, v in rare_storage.items()]
+    # (features constructed on the way — transformed numeric columns, interactions not judged — are left out)
+    out["rare"] = [[k[0], enc(k[1]), int(v)] for k, v in rare_storage.items() if k[0] in cols]
+    out["rare_other_features"] = sum(1 for k in rare_storage if k[0] not in cols)
     out["rare_file"] = None
     out["rare_writer_error"] = None
     if len(rare_storage) > 0:
@@ -413,7 +419,7 @@ def run_history(case, sizes):
         if os.path.exists(p):
             with open(p, newline="", encoding="utf8") as f:
                 rd = list(csv.reader(f, delimiter="\t"))
-            out["rare_file"] = {"header": rd[0] if rd else None, "rows": rd[1:]}
+            out["rare_file"] = {"header": rd[0] if rd else None, "rows": [x for x in rd[1:] if x and x[0] in cols]}
     # --- raw state
     out["coverage"] = {c: [float(x) for x in local_coverage_object[c]] for c in cols}
     out["sketch"] = {c: {"len": int(len(cardinality_object[c])), "cold": bool(getattr(cardinality_object[c], "hll_flag", False)),
@@ -476,10 +482,19 @@ if True:
             import xxhash as _xx
             sp = int((case.get("sketch_p") if SMALL_SKETCH_ERROR is None else None) or 19)
             h2 = [[int(d, 16), _xx.xxh32(d.encode("utf-8"), seed=sp).intdigest()] for d in digests]
+            # interaction cells: xxh64 of the length-prefixed value tuple (compute_combined_features); the sketch sees its digest
+            xx64 = []
+            for s in case.get("istrings") or []:
+                hx = _xx.xxh64(s.encode("utf-8")).hexdigest()
+                d = ih(hx)
+                xx64.append([s, hx])
+                hashes.append([s, int(d, 16)])
+                h2.append([int(d, 16), _xx.xxh32(d.encode("utf-8"), seed=sp).intdigest()])
             herr = None
         except Exception as e:
             hashes = []
             h2 = []
+            xx64 = []
             herr = "%s: %s" % (type(e).__name__, e)
         hs = []
         for sizes in case["splits"]:
@@ -490,7 +505,7 @@ if True:
                 import traceback
                 o = {"ok": False, "error": "%s: %s" % (type(e).__name__, e), "trace": traceback.format_exc()[-1500:]}
             hs.append(o)
-        results.append({"hashes": hashes, "h2": h2, "hash_error": herr, "histories": hs})
+        results.append({"hashes": hashes, "h2": h2, "xx64": xx64, "hash_error": herr, "histories": hs})
 scale_results = []
 for sc in payload.get("scale", []):
     try:
